@@ -192,6 +192,12 @@ def hand_items(ids):
     items.append(Item("HGenNested", "struct", fields=[Field("inner", T.It(plain), decl="T"), Field("list", T.Vec(T.It(plain)), decl="Vec<T>"),
                                                       Field("m", T.Map("btree", "String", I("i8")), decl="std::collections::BTreeMap<String, K>")],
                       generics=[("T", None, T.It(plain)), ("K", None, I("i8"))]))
+    # two variants with one effective name (the derive accepts it): the first DECLARED one is selected, whatever its shape
+    E("HTagCollide", [Variant("Circle", [Field("radius", I("u8"))], [[("rename", "Point")]]), Variant("Point"),
+                      Variant("Solo"), Variant("Duo", [Field("x", T.Bool, [[("default", None)]])], [[("rename", "Solo")]]),
+                      Variant("AB", [Field("y", I("u8"))]), Variant("Ab")],
+      [[("tag", "t"), ("rename_all", "lowercase")]])
+    E("HUnitCollide", [Variant("First"), Variant("Second", attrs=[[("rename", "First")]]), Variant("third"), Variant("Third")], [[("rename_all", "lowercase")]])
     # raw identifiers: the key is the identifier's text as `Ident::to_string` gives it
     S("HRaw", [Field("r#type", I("u8")), Field("r#match", T.Bool, [[("default", None)]]), Field("plain_one", T.String), Field("r#fn", I("u8"), [[("rename", "fn")]])],
       [[("deny", None)]])
